@@ -44,7 +44,41 @@ var (
 	pkgVars = map[string]bool{}
 	lockCopies []string
 	loopShares []string
+	sharedCtors []string
+	// perLoopVarShared: lib/go's go.mod declares a Go version below 1.22 (loop variables are per loop, not per iteration)
+	perLoopVarShared bool
 )
+
+// sharedConstructors: a function named New… that returns the ADDRESS of a package-level variable hands every
+// caller the same mutable object (a caller customising "its" value reconfigures everybody's).
+func sharedConstructors(name string, fd *ast.FuncDecl) {
+	if !strings.HasPrefix(fd.Name.Name, "New") {
+		return
+	}
+	ast.Inspect(fd.Body, func(n ast.Node) bool {
+		if _, ok := n.(*ast.FuncLit); ok {
+			return false
+		}
+		ret, ok := n.(*ast.ReturnStmt)
+		if !ok {
+			return true
+		}
+		for _, r := range ret.Results {
+			if u, ok := r.(*ast.UnaryExpr); ok && u.Op == token.AND {
+				if id, ok := u.X.(*ast.Ident); ok && pkgVars[id.Name] && (id.Obj == nil || id.Obj.Pos() < fd.Pos() || id.Obj.Pos() > fd.End()) {
+					sharedCtors = append(sharedCtors, name+":"+id.Name)
+				}
+			}
+			if id, ok := r.(*ast.Ident); ok && pkgVars[id.Name] && ptrVars[id.Name] && (id.Obj == nil || id.Obj.Pos() < fd.Pos() || id.Obj.Pos() > fd.End()) {
+				sharedCtors = append(sharedCtors, name+":"+id.Name)
+			}
+		}
+		return true
+	})
+}
+
+// ptrVars: package-level variables initialised with &T{…} or new(T) (returning them is returning a shared pointer).
+var ptrVars = map[string]bool{}
 
 // loopSharedCaptures: inside a `for` body, a `go func(){…}()` that uses a variable which is declared OUTSIDE
 // the loop and assigned (`=`) inside the loop body outside the literal: every goroutine started by the loop
@@ -63,6 +97,28 @@ func loopSharedCaptures(name string, body *ast.BlockStmt) {
 			return true
 		}
 		assigned := map[*ast.Object]bool{}
+		if perLoopVarShared {
+			// before Go 1.22 (per go.mod's go directive) the loop's own variables are ONE variable for all
+			// iterations: a goroutine literal that uses them (instead of taking them as arguments) shares them
+			switch x := n.(type) {
+			case *ast.RangeStmt:
+				if x.Tok == token.DEFINE {
+					for _, e := range []ast.Expr{x.Key, x.Value} {
+						if id, ok := e.(*ast.Ident); ok && id.Obj != nil && id.Name != "_" {
+							assigned[id.Obj] = true
+						}
+					}
+				}
+			case *ast.ForStmt:
+				if as, ok := x.Init.(*ast.AssignStmt); ok && as.Tok == token.DEFINE {
+					for _, e := range as.Lhs {
+						if id, ok := e.(*ast.Ident); ok && id.Obj != nil && id.Name != "_" {
+							assigned[id.Obj] = true
+						}
+					}
+				}
+			}
+		}
 		var lits []*ast.FuncLit
 		var walk func(m ast.Node, inLit bool)
 		walk = func(m ast.Node, inLit bool) {
@@ -521,6 +577,18 @@ func main() {
 		fail("usage: locks <repo> <out.lean>")
 	}
 	repo, out := os.Args[1], os.Args[2]
+	if gm, err := os.ReadFile(filepath.Join(repo, "lib/go/go.mod")); err == nil {
+		for _, ln := range strings.Split(string(gm), "\n") {
+			f := strings.Fields(ln)
+			if len(f) == 2 && f[0] == "go" {
+				var maj, min int
+				fmt.Sscanf(f[1], "%d.%d", &maj, &min)
+				perLoopVarShared = maj == 1 && min < 22
+			}
+		}
+	} else {
+		fail("lib/go/go.mod not readable")
+	}
 	files, _ := filepath.Glob(filepath.Join(repo, "lib/go/*.go"))
 	sort.Strings(files)
 	var decls []*ast.FuncDecl
@@ -538,8 +606,18 @@ func main() {
 			case *ast.GenDecl:
 				for _, sp := range x.Specs {
 					if vs, ok := sp.(*ast.ValueSpec); ok && x.Tok == token.VAR {
-						for _, n := range vs.Names {
+						for i, n := range vs.Names {
 							pkgVars[n.Name] = true
+							if i < len(vs.Values) {
+								if u, ok := vs.Values[i].(*ast.UnaryExpr); ok && u.Op == token.AND {
+									ptrVars[n.Name] = true
+								}
+								if c, ok := vs.Values[i].(*ast.CallExpr); ok {
+									if id, ok := c.Fun.(*ast.Ident); ok && id.Name == "new" {
+										ptrVars[n.Name] = true
+									}
+								}
+							}
 						}
 					}
 					ts, ok := sp.(*ast.TypeSpec)
@@ -629,6 +707,7 @@ func main() {
 			})
 		}
 		loopSharedCaptures(f.name, d.Body)
+		sharedConstructors(f.name, d)
 		fns = append(fns, f)
 	}
 	sort.Slice(fns, func(i, j int) bool { return fns[i].name < fns[j].name })
@@ -804,7 +883,16 @@ func main() {
 		fmt.Fprintf(&b, "%q", n)
 		fmt.Printf("SHARED %s: goroutines started by a loop share this variable\n", n)
 	}
-	b.WriteString("]\n\nend FV.Generated.Locks\n")
+	b.WriteString("]\n\n/-- `function:variable` — a function named New… returns (the address of) a package-level variable: every caller gets the same mutable object. -/\ndef sharedCtors : List String := [")
+	sort.Strings(sharedCtors)
+	for i, n := range sharedCtors {
+		if i > 0 {
+			b.WriteString(", ")
+		}
+		fmt.Fprintf(&b, "%q", n)
+		fmt.Printf("SHAREDCTOR %s: the constructor returns a package-level object\n", n)
+	}
+	fmt.Fprintf(&b, "]\n\n/-- lib/go's go.mod declares a Go version below 1.22: loop variables are shared by the iterations (counted in `loopShares`). -/\ndef loopVariablesShared : Bool := %v\n\nend FV.Generated.Locks\n", perLoopVarShared)
 	// human-readable report of what breaks the discipline (the Lean side decides; this is for the replay file)
 	acq := map[string]map[string]bool{}
 	var reach func(n string, seen map[string]bool) map[string]bool
